@@ -202,9 +202,12 @@ func (engine *Engine) DialAsyncTimeout(network, addr string, timeout time.Durati
 		rAddr: raddr,
 		typ:   connType,
 	}
-	if inprogress {
-		c.onConnected = h
-	}
+	// Until the outcome of the dial has been reported, whoever closes the
+	// connection (Stop, the dial timeout) reports it through the callback; that
+	// also holds for a connect that completed at once, whose success is
+	// reported a moment later through Engine.Async.
+	c.onConnected = h
+	c.dialPending = inprogress
 	switch vt := sa.(type) {
 	case *syscall.SockaddrInet4:
 		switch connType {
@@ -276,7 +279,11 @@ func (engine *Engine) DialAsyncTimeout(network, addr string, timeout time.Durati
 
 	if !inprogress {
 		engine.Async(func() {
-			h(c, nil)
+			// Exactly one of this, the poller (an edge-triggered registration
+			// reports the writable socket) and a closer takes the callback.
+			if h := c.takeOnConnected(false); h != nil {
+				h(c, nil)
+			}
 		})
 	} else if timeout > 0 {
 		// Arm the dial timeout only while the connect is still pending: the
